@@ -99,12 +99,17 @@ func fieldLines(f *descriptorpb.FieldDescriptorProto) []line {
 		required = vc.GetRequired()
 	}
 	primary, tenant, hasTenant := false, "", false
+	fpkg, fent, hasForeign := "", "", false
 	if ko, ok := getExt[*ext_j5pb.PSMKeyFieldOptions](opts, ext_j5pb.E_Key); ok && ko != nil {
 		primary = ko.GetPrimaryKey()
 		if ko.TenantType != nil {
 			tenant, hasTenant = *ko.TenantType, true
 		}
+		if fk := ko.GetForeignKey(); fk != nil {
+			fpkg, fent, hasForeign = fk.GetPackage(), fk.GetEntity(), true
+		}
 	}
+	optional := f.GetProto3Optional()
 	filterable := false
 	var defaults []string
 	if lc, ok := getExt[*list_j5pb.FieldConstraint](opts, list_j5pb.E_Field); ok && lc != nil {
@@ -121,9 +126,10 @@ func fieldLines(f *descriptorpb.FieldDescriptorProto) []line {
 	}
 	out := []line{{
 		Tag:  2,
-		Strs: []string{f.GetName(), f.GetJsonName(), strings.TrimPrefix(f.GetTypeName(), "."), kind, tenant},
+		Strs: []string{f.GetName(), f.GetJsonName(), strings.TrimPrefix(f.GetTypeName(), "."), kind, tenant, fpkg, fent},
 		Nums: []uint64{uint64(f.GetNumber()), uint64(f.GetType()), b2n(f.GetLabel() == descriptorpb.FieldDescriptorProto_LABEL_REPEATED),
-			b2n(required), b2n(flatten), b2n(f.OneofIndex != nil), b2n(primary), b2n(hasTenant), b2n(filterable)},
+			b2n(required), b2n(flatten), b2n(f.OneofIndex != nil && !optional), b2n(primary), b2n(hasTenant), b2n(filterable),
+			b2n(hasForeign), b2n(optional)},
 	}}
 	if filterable {
 		out = append(out, line{Tag: 3, Strs: append([]string{}, defaults...), Nums: []uint64{}})
@@ -157,7 +163,7 @@ func msgLines(prefix string, file int, m *descriptorpb.DescriptorProto) []line {
 }
 
 func svcLines(pkgName string, file int, s *descriptorpb.ServiceDescriptorProto) []line {
-	l := line{Tag: 6, Strs: []string{pkgName + "." + s.GetName(), "", ""}, Nums: []uint64{uint64(file), 0, 0}}
+	l := line{Tag: 6, Strs: []string{pkgName + "." + s.GetName(), "", "", ""}, Nums: []uint64{uint64(file), 0, 0}}
 	var opts proto.Message
 	if s.Options != nil {
 		opts = s.Options
@@ -167,6 +173,10 @@ func svcLines(pkgName string, file int, s *descriptorpb.ServiceDescriptorProto) 
 			l.Strs[1], l.Nums[1] = q.GetEntity(), 1
 		} else if c := so.GetStateCommand(); c != nil {
 			l.Strs[1], l.Nums[1] = c.GetEntity(), 2
+		}
+		l.Strs[3] = strings.Join(so.GetAudience(), ",")
+		if so.GetDefaultAuth() != nil {
+			l.Strs[3] += "+auth"
 		}
 	}
 	if mc, ok := getExt[*messaging_j5pb.ServiceConfig](opts, messaging_j5pb.E_Service); ok && mc != nil {
